@@ -96,8 +96,54 @@ TGen ==
              IN /\ Report(e, real)
                 /\ Stat([l |-> l, id |-> e.id, ok |-> Cardinality({it \in its : it.cls = "$ok"}), beyond |-> Cardinality({it \in its : it.cls = "$discard"}),
                          sizes |-> {it.more.size : it \in {x \in its : x.cls \in {"$ok", "$discard"}}}, preludeOk |-> e.preludeOk])
+(* "TypeGenBatch": one project whose operation files are documents enumerated by Gen_C01.tla (every document with <= MaxNodes selection *)
+(* nodes over a tiny schema).  Each file is judged like a TypeGen event; a file whose document is not valid - Validate.tla, plus the   *)
+(* conservative form of FieldsInSetCanMerge below - is discarded.                                                                      *)
+RECURSIVE AllFields(_, _, _)
+AllFields(frs, sel, vis) ==
+  LET RECURSIVE Go(_)
+      Go(i) == IF i > Len(sel) THEN <<>>
+               ELSE (CASE sel[i].k = "field" -> <<sel[i]>>
+                       [] sel[i].k = "spread" -> IF sel[i].name \in DOMAIN frs /\ sel[i].name \notin vis
+                                                 THEN AllFields(frs, frs[sel[i].name].sel, vis \cup {sel[i].name}) ELSE <<>>
+                       [] sel[i].k = "inline" -> AllFields(frs, sel[i].sel, vis)) \o Go(i + 1)
+  IN Go(1)
+(* every field selected under one response key anywhere in a scope (whatever its type condition or @skip/@include) has one field name,  *)
+(* recursively for the merged sub-selections: stricter than the spec's rule, so only valid documents pass                               *)
+RECURSIVE KeysConsistent(_, _)
+KeysConsistent(frs, sel) ==
+  LET fl == AllFields(frs, sel, {}) IN
+  \A key \in KeysOf(fl) : LET ns == NodesFor(fl, key) IN
+     /\ \A i \in DOMAIN ns : ns[i].name = ns[1].name
+     /\ KeysConsistent(frs, MergedSel(ns))
+TypeNameOfK(e, k, i) == LET d == e.opFiles[k].doc.defs[i] IN
+                        IF d.k = "op" THEN NM!ResultTypeName(e.nameCfg, IF d.hasName THEN d.name ELSE "") ELSE NM!FragTypeName(e.nameCfg, d.name)
+FileOutcome(e, S, cfg, k) ==
+  LET defs == e.opFiles[k].doc.defs
+      frs == FragMapOf(defs)
+      valid == Violations(S, defs) = {} /\ \A i \in DOMAIN defs : KeysConsistent(frs, defs[i].sel)
+  IN IF ~valid THEN [real |-> {}, ok |-> 0, beyond |-> 0, discarded |-> 1]
+     ELSE IF e.opTs[k].k # "ok" THEN [real |-> {Item("declaration-unreadable", "a declaration file is missing or not well-formed", [file |-> k, op |-> e.opTs[k].k])}, ok |-> 0, beyond |-> 0, discarded |-> 0]
+     ELSE LET env == [schema |-> e.schemaTs.stmts, local |-> e.opTs[k].stmts, schemaNs |-> e.opTs[k].schemaNs]
+              its == UNION {DefItems(S, cfg, env, frs, defs[i], TypeNameOfK(e, k, i)) : i \in DOMAIN defs}
+              clash == ClashNames(e.opTs[k].stmts)
+              real == IF clash = {} THEN {[it EXCEPT !.more = [file |-> k, detail |-> it.more]] : it \in {x \in its : x.cls \notin {"$ok", "$discard"}}}
+                      ELSE {Item("identifier-clash", "one identifier is declared twice in the operation declaration file", [file |-> k, names |-> clash])}
+          IN [real |-> real, ok |-> Cardinality({it \in its : it.cls = "$ok"}), beyond |-> Cardinality({it \in its : it.cls = "$discard"}), discarded |-> 0]
+TGenBatch ==
+  /\ IsEvent("TypeGenBatch")
+  /\ LET e == Rec[l]
+         S == MergeItems(CatFiles(e.schemaFiles, 1))
+         cfg == [allowUndefined |-> e.cfg.allowUndefined, scalars |-> e.scalars, modelPlugin |-> FALSE, modelTypes |-> <<>>]
+     IN IF e.panicked THEN Report(e, {Item("panic", "generate panicked", [diag |-> e.diag])})
+        ELSE IF e.exit # 0 THEN Report(e, {Item("generate-failed", "check/generate failed on a project of enumerated documents", [diag |-> e.diag])})
+        ELSE IF e.schemaTs.k # "ok" THEN Report(e, {Item("declaration-unreadable", "the schema declaration file is missing or not well-formed", [schema |-> e.schemaTs.k])})
+        ELSE LET outs == [k \in DOMAIN e.opFiles |-> FileOutcome(e, S, cfg, k)]
+             IN /\ Report(e, UNION {outs[k].real : k \in DOMAIN outs})
+                /\ Stat([l |-> l, id |-> e.id, batch |-> Len(outs), ok |-> SumN(DOMAIN outs, LAMBDA k : outs[k].ok),
+                         beyond |-> SumN(DOMAIN outs, LAMBDA k : outs[k].beyond), discardedFiles |-> SumN(DOMAIN outs, LAMBDA k : outs[k].discarded), sizes |-> {}, preludeOk |-> e.preludeOk])
 Init == l = 1
-Next == TGen
+Next == TGen \/ TGenBatch
 Spec == Init /\ [][Next]_l
 Done == PrintT(<<"DONE", ToJson([consumed |-> TLCGet("stats").diameter - 1])>>)
 =============================================================================
